@@ -198,7 +198,10 @@ Section Sess.
         else if lmtp c then
           if chk_body c then
             let '(ev, _) := commit_all (pd_txn d) (pd_open d) true false in
-            (drv_reset (clean s (log s ++ ev)), RData (map (fun r => (r, false)) (d_rcpts s)))
+            (* statuses are set for the recipients of the open deliveries; the driver may still
+               list recipients of a session replaced by a repeated LHLO: they get the (nil) result *)
+            (drv_reset (clean s (log s ++ ev)),
+             RData (map (fun r => (r, negb (mem r (flat_map od_rcpts (pd_open d))))) (d_rcpts s)))
           else
             let '(ev1, open', sts) := body_na (pd_txn d) (pd_open d) in
             let '(ev2, cok) := commit_all (pd_txn d) open' false false in
